@@ -6,7 +6,7 @@ Line-protocol driver for C14.  Every line is self-contained:  `<op> key=value ke
                p1 p2 beta dur acts start stop          (the current edge table; `-` = empty list)
   op keys      dt ti uids wantf  a b (observed new endpoints)  durs actsl
                n_p1 n_p2 n_beta n_dur n_acts n_start n_stop (append: an absent key = key missing from the dict)
-Ops: end rm matstep matend append check avail accept
+Ops: end rm matstep matend append check avail accept addstated (durpar dval | draws) matadd (mothers unborn durs starts ti)
 -/
 open StarsimModel StarsimModel.Network StarsimModel.Proto
 
@@ -158,6 +158,29 @@ def stepLine (_ : Unit) (line : String) : Unit × String :=
                 | .ok none => if a.isEmpty && b.isEmpty then "ok accept=1 none" else "ok accept=0 none"
                 | .ok (some (a', b')) =>
                     s!"ok accept={showBool (a' == a && b' == b)} a={showList toString a'} b={showList toString b'}")
+          | "addstated" => do
+              -- the whole `add_pairs` of a duration-carrying class: observed endpoints -> choice, durations from the STATED
+              -- duration parameter (`durpar=plain dval=<number>` | `durpar=drawn draws=<one value per new edge>`)
+              let a ← getNats kv "a"
+              let b ← getNats kv "b"
+              let acts ← getRats kv "actsl"
+              let spec : DurPar ← match getS kv "durpar" with
+                | some "plain" => (getRat kv "dval").map DurPar.plain
+                | some "drawn" => (getRats kv "draws").map DurPar.drawn
+                | _ => none
+              let c := choiceFor s a b [] acts
+              pure (match s.net.addPairsStated s.pop c spec with
+                | .ok n' => showTable n'.table ++ s!" wf={showBool n'.table.wfB}"
+                | .error e => showErr e)
+          | "matadd" => do
+              let mothers ← getNats kv "mothers"
+              let unborn ← getNats kv "unborn"
+              let durs ← getRats kv "durs"
+              let starts ← optRats kv "starts"
+              let ti ← getRat kv "ti"
+              pure (match t.matAddPairsAt mothers unborn durs starts ti with
+                | .ok t' => showTable t' ++ s!" wf={showBool t'.wfB}"
+                | .error e => showErr e)
           | _ => none
         ((), r.getD "bad-op")
 
